@@ -19,7 +19,7 @@ Definition fsim (f f' : frame) : Prop :=
   match f, f' with
   | FBin _ d _ l, FBin _ d' _ l' => d = d' /\ sg l = sg l'
   | FPre _ d _, FPre _ d' _ => d = d'
-  | FGroup _ _, FGroup _ _ => True
+  | FGroup b _ _, FGroup b' _ _ => b = b'
   | _, _ => False
   end.
 
@@ -33,11 +33,14 @@ Definition osim (a a' : option ntree) : Prop :=
 Definition ssim (s s' : spine_state) : Prop := Forall2 fsim (fst s) (fst s') /\ osim (snd s) (snd s').
 
 Lemma fsim_def f f' : fsim f f' -> frame_def f = frame_def f' /\ is_fgroup f = is_fgroup f'.
-Proof. destruct f, f'; simpl; try tauto; intros H; split; try reflexivity; try apply H; exact H. Qed.
+Proof.
+  destruct f, f'; simpl; try tauto; intros H; split; try reflexivity; try apply H; try exact H.
+  subst; reflexivity.
+Qed.
 
 Lemma fsim_stays d f f' : fsim f f' -> stays_below d f = stays_below d f'.
 Proof.
-  destruct f as [i d0 k l|i d0 k|i k], f' as [i' d' k' l'|i' d' k'|i' k']; simpl; try tauto; unfold stays_below; simpl.
+  destruct f as [i d0 k l|i d0 k|b i k], f' as [i' d' k' l'|i' d' k'|b' i' k']; simpl; try tauto; unfold stays_below; simpl.
   - intros [-> _]. reflexivity.
   - intros ->. reflexivity.
 Qed.
@@ -57,8 +60,9 @@ Qed.
 
 Lemma plug_sim f f' t t' : fsim f f' -> sg t = sg t' -> sg (plug f t) = sg (plug f' t').
 Proof.
-  unfold sg. destruct f as [i d k l|i d k|i k], f' as [i' d' k' l'|i' d' k'|i' k']; simpl; try tauto.
+  unfold sg. destruct f as [i d k l|i d k|b i k], f' as [i' d' k' l'|i' d' k'|b' i' k']; simpl; try tauto.
   - intros [-> Hl] Ht. apply strip_bin; auto; apply gt_node.
+  - intros -> Ht. apply strip_pre. exact Ht.
   - intros -> Ht. apply strip_pre. exact Ht.
 Qed.
 
@@ -73,17 +77,18 @@ Proof.
     + eapply IH; [exact HF'| |exact H]. apply plug_sim; assumption.
 Qed.
 
-Lemma close_group_sim : forall fs fs' t t' fs1 t1,
-  Forall2 fsim fs fs' -> sg t = sg t' -> close_group fs t = Some (fs1, t1) ->
-  exists fs1' t1', close_group fs' t' = Some (fs1', t1') /\ Forall2 fsim fs1 fs1' /\ sg t1 = sg t1'.
+Lemma close_group_sim bc : forall fs fs' t t' fs1 t1,
+  Forall2 fsim fs fs' -> sg t = sg t' -> close_group bc fs t = Some (fs1, t1) ->
+  exists fs1' t1', close_group bc fs' t' = Some (fs1', t1') /\ Forall2 fsim fs1 fs1' /\ sg t1 = sg t1'.
 Proof.
   induction fs as [|f r IH]; intros fs' t t' fs1 t1 HF Ht H; [discriminate|].
   inversion HF as [|? f' ? r' Hf HF']; subst.
-  destruct f as [i d k l|i d k|i k], f' as [i' d' k' l'|i' d' k'|i' k']; simpl in Hf; try contradiction;
+  destruct f as [i d k l|i d k|b i k], f' as [i' d' k' l'|i' d' k'|b' i' k']; simpl in Hf; try contradiction;
     cbn [close_group] in *.
   - eapply IH; [exact HF'| |exact H]. apply (plug_sim (FBin i d k l) (FBin i' d' k' l')); [exact Hf|exact Ht].
   - eapply IH; [exact HF'| |exact H]. apply (plug_sim (FPre i d k) (FPre i' d' k')); [exact Hf|exact Ht].
-  - injection H as <- <-. exists r', (NGroup i' k' t'). repeat split; auto.
+  - subst b'. destruct (bkind_eqb b bc); [|discriminate H]. injection H as <- <-. exists r', (NGroup b i' k' t').
+    split; [reflexivity|]. split; [exact HF'|]. unfold sg in *. cbn [gt]. apply strip_pre. exact Ht.
 Qed.
 
 Lemma atom_store_sim d fs fs' : Forall2 fsim fs fs' -> atom_store d fs = atom_store d fs'.
@@ -97,7 +102,7 @@ Lemma step_sim it it' n n' st st' st1 :
   exists st1', spine_step it' n' st' = Some st1' /\ ssim st1 st1'.
 Proof.
   intros Hu [HF Ho] H. destruct st as [fs acc], st' as [fs' acc']. cbn [fst snd] in *.
-  destruct it as [d k|d k|d k|d k|k|k], it' as [d' k'|d' k'|d' k'|d' k'|k'|k']; try discriminate Hu;
+  destruct it as [d k|d k|d k|d k|b k|b k], it' as [d' k'|d' k'|d' k'|d' k'|b' k'|b' k']; try discriminate Hu;
     cbn [untok_item] in Hu; try (injection Hu as <-); try (injection Hu as <- _);
     destruct acc as [t|], acc' as [t'|]; simpl in Ho; try contradiction; cbn [spine_step] in *; try discriminate H.
   - injection H as <-. eexists. split; [reflexivity|]. split; [exact HF|]. cbn [snd osim].
@@ -111,9 +116,9 @@ Proof.
   - destruct (ref_rank d); [|discriminate H]. destruct (pop d fs t) as [fs1 t1] eqn:Ep. injection H as <-.
     destruct (pop_sim d _ _ _ _ _ _ HF Ho Ep) as (fs1' & t1' & Ep' & HF1 & Ht1). rewrite Ep'.
     eexists. split; [reflexivity|]. split; [|exact I]. constructor; [split; [reflexivity|exact Ht1]|exact HF1].
-  - injection H as <-. eexists. split; [reflexivity|]. split; [constructor; [exact I|exact HF]|exact I].
-  - destruct (close_group fs t) as [[fs1 t1]|] eqn:Ec; [|discriminate H]. injection H as <-.
-    destruct (close_group_sim _ _ _ _ _ _ HF Ho Ec) as (fs1' & t1' & Ec' & HF1 & Ht1). rewrite Ec'.
+  - injection H as <-. eexists. split; [reflexivity|]. split; [constructor; [reflexivity|exact HF]|exact I].
+  - destruct (close_group b fs t) as [[fs1 t1]|] eqn:Ec; [|discriminate H]. injection H as <-.
+    destruct (close_group_sim _ _ _ _ _ _ _ HF Ho Ec) as (fs1' & t1' & Ec' & HF1 & Ht1). rewrite Ec'.
     eexists. split; [reflexivity|]. split; [exact HF1|exact Ht1].
 Qed.
 
@@ -199,7 +204,7 @@ Proof.
   induction l as [|t r IH]; intros i j p p' sp H; [reflexivity|]. cbn [items_of].
   destruct (ref_kind t) eqn:Ek; try reflexivity; try (apply IH; exact H);
     (rewrite H; pose proof (items_of_index r (S i) (S j) (Some (ref_kind t)) false) as E; rewrite Ek in E;
-     destruct (items_of r (S i) _ false) as [a|]; destruct (items_of r (S j) _ false) as [b|];
+     destruct (items_of r (S i) _ false) as [ra|]; destruct (items_of r (S j) _ false) as [rb|];
      cbn [oitems option_map] in E |- *; try discriminate E; [|reflexivity];
      injection E as E; rewrite !map_app; cbn [map untok_item]; rewrite E; reflexivity).
 Qed.
@@ -216,16 +221,16 @@ Lemma items_wrap_value pre v post its :
           ++ IValue (ref_def v) (length pre) :: B /\
     items_of (pre ++ TT_StartGroup :: v :: TT_EndGroup :: post) 0 None false
     = Some ((A ++ lead_of (fst (end_state None false pre)) (snd (end_state None false pre)))
-            ++ IOpen (length pre) :: IValue (ref_def v) (S (length pre)) :: IClose (S (S (length pre))) :: B') /\
+            ++ IOpen BRound (length pre) :: IValue (ref_def v) (S (length pre)) :: IClose BRound (S (S (length pre))) :: B') /\
     map untok_item B = map untok_item B'.
 Proof.
   intros Hv H. rewrite items_of_app in H. rewrite items_of_app.
   destruct (items_of pre 0 None false) as [A|]; [|discriminate H].
   destruct (end_state None false pre) as [p s]. cbn [fst snd plus] in *.
   cbn [items_of] in H |- *. rewrite Hv in H. cbn [ref_kind] in *. rewrite Hv.
-  pose proof (items_of_prev_ends post (S (length pre)) (S (S (S (length pre)))) KValue KClose false eq_refl) as E.
+  pose proof (items_of_prev_ends post (S (length pre)) (S (S (S (length pre)))) KValue (KClose BRound) false eq_refl) as E.
   destruct (items_of post (S (length pre)) (Some KValue) false) as [B|]; [|destruct p; discriminate H].
-  destruct (items_of post (S (S (S (length pre)))) (Some KClose) false) as [B'|]; [|discriminate E].
+  destruct (items_of post (S (S (S (length pre)))) (Some (KClose BRound)) false) as [B'|]; [|discriminate E].
   cbn [oitems option_map] in E. injection E as E.
   exists A, B, B'. split; [reflexivity|].
   assert (Hl : match p with
@@ -233,7 +238,7 @@ Proof.
                | None => [] end = lead_of p s).
   { destruct p as [a|]; [|reflexivity]. cbn [lead_of starts_value_k]. rewrite andb_true_r. reflexivity. }
   assert (Hl' : match p with
-               | Some p0 => if s && ends_value_k p0 && starts_value_k KOpen then [IBinary D_List None] else []
+               | Some p0 => if s && ends_value_k p0 && starts_value_k (KOpen BRound) then [IBinary D_List None] else []
                | None => [] end = lead_of p s).
   { destruct p as [a|]; [|reflexivity]. cbn [lead_of starts_value_k]. rewrite andb_true_r. reflexivity. }
   rewrite Hl in H. rewrite Hl'. cbn [option_map] in H |- *. injection H as <-.
@@ -333,8 +338,8 @@ Proof.
 Qed.
 
 (* ---- brackets around a value token ---- *)
-Lemma atom_store_group d i k fs : atom_store d (FGroup i k :: fs) = d.
-Proof. unfold atom_store. destruct (definition_eqb d D_Identifier); reflexivity. Qed.
+Lemma atom_store_group d b i k fs : atom_store d (FGroup b i k :: fs) = d.
+Proof. unfold atom_store. destruct (definition_eqb d D_Identifier); destruct b; reflexivity. Qed.
 
 Lemma atom_store_plain d fs :
   definition_eqb d D_Identifier = false \/ top_is_access fs = false -> atom_store d fs = d.
@@ -348,14 +353,14 @@ Lemma parens_value_machine A d j B B' k1 k2 k3 st T1 :
   spine_run (A ++ IValue d j :: B) 0 ([], None) = Some st -> spine_insert (A ++ IValue d j :: B) = Some T1 ->
   (forall fsA, spine_run A 0 ([], None) = Some (fsA, None) ->
      definition_eqb d D_Identifier = false \/ top_is_access fsA = false) ->
-  exists T1', spine_insert (A ++ IOpen k1 :: IValue d k2 :: IClose k3 :: B') = Some T1' /\ sg T1' = sg T1.
+  exists T1', spine_insert (A ++ IOpen BRound k1 :: IValue d k2 :: IClose BRound k3 :: B') = Some T1' /\ sg T1' = sg T1.
 Proof.
   intros Hu Hr Hi Hsafe. pose proof Hr as Hr0. rewrite spine_run_app in Hr.
   destruct (spine_run A 0 ([], None)) as [[fsA accA]|] eqn:EA; [|discriminate Hr].
   set (nA := fold_left (fun m it => next_index it m) A 0) in *.
   cbn [spine_run] in Hr. destruct accA as [tA|]; [discriminate Hr|]. cbn [spine_step next_index] in Hr.
-  assert (Hst : exists st', spine_run (A ++ IOpen k1 :: IValue d k2 :: IClose k3 :: B') 0 ([], None) = Some st' /\ ssim st st').
-  { rewrite spine_run_app, EA. fold nA. cbn [spine_run spine_step next_index close_group].
+  assert (Hst : exists st', spine_run (A ++ IOpen BRound k1 :: IValue d k2 :: IClose BRound k3 :: B') 0 ([], None) = Some st' /\ ssim st st').
+  { rewrite spine_run_app, EA. fold nA. cbn [spine_run spine_step next_index close_group bkind_eqb].
     eapply run_sim; [exact Hu| |exact Hr].
     split; cbn [fst snd]; [apply fsims_refl|]. cbn [osim]. unfold sg. cbn [gt strip_groups].
     rewrite atom_store_group, (atom_store_plain d fsA (Hsafe fsA eq_refl)). reflexivity. }
@@ -373,14 +378,14 @@ Proof.
     rewrite spine_run_app in Hr. destruct (spine_run A0 0 ([], None)) as [[fs0 acc0]|]; [|discriminate Hr].
     cbn [spine_run] in Hr.
     destruct (spine_step x _ (fs0, acc0)) as [st1|] eqn:Es; [|discriminate Hr]. injection Hr as ->.
-    destruct x as [d k|d k|d k|d k|k|k]; destruct acc0 as [t|]; cbn [spine_step] in Es; try discriminate Es.
+    destruct x as [d k|d k|d k|d k|b k|b k]; destruct acc0 as [t|]; cbn [spine_step] in Es; try discriminate Es.
     + destruct (ref_rank d); [|discriminate Es]. injection Es as <-. cbn [top_is_access frame_def] in Ht.
       simpl in Hx1. rewrite Hx1 in Ht. discriminate Ht.
     + destruct (ref_rank d); [|discriminate Es]. destruct (pop d fs0 t). discriminate Es.
     + destruct (ref_rank d); [|discriminate Es]. destruct (pop d fs0 t) as [fs1 t1]. injection Es as <-.
       cbn [top_is_access frame_def] in Ht. exists A0, d, k. split; [reflexivity|exact Ht].
-    + injection Es as <-. discriminate Ht.
-    + destruct (close_group fs0 t) as [[? ?]|]; discriminate Es.
+    + injection Es as <-. destruct b; discriminate Ht.
+    + destruct (close_group b fs0 t) as [[? ?]|]; discriminate Es.
 Qed.
 
 (* the last item of the items of [pre] is the item of its last non-whitespace token *)
@@ -396,8 +401,9 @@ Definition item_of (t : token_type) (j : nat) : item :=
   | KPrefix => IPrefix (ref_def t) j
   | KSuffix => ISuffix (ref_def t) j
   | KBinary => IBinary (ref_def t) (Some j)
-  | KOpen => IOpen j
-  | _ => IClose j
+  | KOpen b => IOpen b j
+  | KClose b => IClose b j
+  | _ => IClose BRound j
   end.
 
 Lemma items_of_last : forall pre i prev sp its dflt, items_of pre i prev sp = Some its ->
@@ -490,8 +496,8 @@ Proof. split; [apply fsims_refl|exact I]. Qed.
 
 (* frames below an open bracket do not matter to what happens above it *)
 Section Base.
-Variables (bi bk : nat) (br : list frame).
-Let base := FGroup bi bk :: br.
+Variables (bb : bkind) (bi bk : nat) (br : list frame).
+Let base := FGroup bb bi bk :: br.
 
 Lemma pop_app_base d : forall fs t fs1 t1, pop d fs t = (fs1, t1) -> pop d (fs ++ base) t = (fs1 ++ base, t1).
 Proof.
@@ -500,16 +506,19 @@ Proof.
   - destruct (stays_below d f); [injection H as <- <-; reflexivity|]. apply IH. exact H.
 Qed.
 
-Lemma close_group_app_base : forall fs t fs1 t1, close_group fs t = Some (fs1, t1) ->
-  close_group (fs ++ base) t = Some (fs1 ++ base, t1).
+Lemma close_group_app_base bc : forall fs t fs1 t1, close_group bc fs t = Some (fs1, t1) ->
+  close_group bc (fs ++ base) t = Some (fs1 ++ base, t1).
 Proof.
   induction fs as [|f r IH]; intros t fs1 t1 H; [discriminate|].
   destruct f; cbn [close_group app] in *; [apply IH; exact H|apply IH; exact H|].
-  injection H as <- <-. reflexivity.
+  destruct (bkind_eqb b bc); [|discriminate H]. injection H as <- <-. reflexivity.
 Qed.
 
 Lemma atom_store_app_base d fs : atom_store d (fs ++ base) = atom_store d fs.
-Proof. unfold atom_store. destruct (definition_eqb d D_Identifier); [|reflexivity]. destruct fs; reflexivity. Qed.
+Proof.
+  unfold atom_store. destruct (definition_eqb d D_Identifier); [|reflexivity].
+  destruct fs; [unfold base; destruct bb|]; reflexivity.
+Qed.
 
 Lemma run_app_base : forall its n fs acc fs1 acc1,
   spine_run its n (fs, acc) = Some (fs1, acc1) -> spine_run its n (fs ++ base, acc) = Some (fs1 ++ base, acc1).
@@ -518,7 +527,7 @@ Proof.
   - injection H as <- <-. reflexivity.
   - cbn [spine_run] in *. destruct (spine_step it n (fs, acc)) as [[fs2 acc2]|] eqn:Es; [|discriminate H].
     assert (Es' : spine_step it n (fs ++ base, acc) = Some (fs2 ++ base, acc2)).
-    { destruct it as [d k|d k|d k|d k|k|k]; destruct acc as [t|]; cbn [spine_step] in *; try discriminate Es.
+    { destruct it as [d k|d k|d k|d k|b k|b k]; destruct acc as [t|]; cbn [spine_step] in *; try discriminate Es.
       - injection Es as <- <-. rewrite atom_store_app_base. reflexivity.
       - destruct (ref_rank d); [|discriminate Es]. injection Es as <- <-. reflexivity.
       - destruct (ref_rank d); [|discriminate Es]. destruct (pop d fs t) as [fs3 t3] eqn:Ep. injection Es as <- <-.
@@ -526,38 +535,38 @@ Proof.
       - destruct (ref_rank d); [|discriminate Es]. destruct (pop d fs t) as [fs3 t3] eqn:Ep. injection Es as <- <-.
         rewrite (pop_app_base d _ _ _ _ Ep). reflexivity.
       - injection Es as <- <-. reflexivity.
-      - destruct (close_group fs t) as [[fs3 t3]|] eqn:Ec; [|discriminate Es]. injection Es as <- <-.
-        rewrite (close_group_app_base _ _ _ _ Ec). reflexivity. }
+      - destruct (close_group b fs t) as [[fs3 t3]|] eqn:Ec; [|discriminate Es]. injection Es as <- <-.
+        rewrite (close_group_app_base _ _ _ _ _ Ec). reflexivity. }
     rewrite Es'. apply IH. exact H.
 Qed.
 
 Lemma close_group_nogroup : forall fs t, existsb is_fgroup fs = false ->
-  close_group (fs ++ base) t = Some (br, NGroup bi bk (close fs t)).
+  close_group bb (fs ++ base) t = Some (br, NGroup bb bi bk (close fs t)).
 Proof.
-  induction fs as [|f r IH]; intros t H; [reflexivity|]. cbn [existsb] in H. apply orb_false_iff in H. destruct H as [H1 H2].
+  induction fs as [|f r IH]; intros t H; [cbn [app close_group close]; unfold base; cbn [close_group]; destruct bb; reflexivity|]. cbn [existsb] in H. apply orb_false_iff in H. destruct H as [H1 H2].
   destruct f; try discriminate H1; cbn [app close_group close]; apply IH; exact H2.
 Qed.
 End Base.
 
 (* a closing bracket on a state similar to "frames without brackets above an open bracket" *)
-Lemma close_step_sim fse bi bk br te s c n :
-  existsb is_fgroup fse = false -> ssim (fse ++ FGroup bi bk :: br, Some te) s ->
-  exists s', spine_step (IClose c) n s = Some s' /\ ssim (br, Some (NGroup bi bk (close fse te))) s'.
+Lemma close_step_sim fse bb bi bk br te s c n :
+  existsb is_fgroup fse = false -> ssim (fse ++ FGroup bb bi bk :: br, Some te) s ->
+  exists s', spine_step (IClose bb c) n s = Some s' /\ ssim (br, Some (NGroup bb bi bk (close fse te))) s'.
 Proof.
   intros Hng Hs.
-  assert (E : spine_step (IClose c) n (fse ++ FGroup bi bk :: br, Some te)
-              = Some (br, Some (NGroup bi bk (close fse te)))).
-  { cbn [spine_step]. rewrite (close_group_nogroup bi bk br fse te Hng). reflexivity. }
-  exact (step_sim (IClose c) (IClose c) n n _ s _ eq_refl Hs E).
+  assert (E : spine_step (IClose bb c) n (fse ++ FGroup bb bi bk :: br, Some te)
+              = Some (br, Some (NGroup bb bi bk (close fse te)))).
+  { cbn [spine_step]. rewrite (close_group_nogroup bb bi bk br fse te Hng). reflexivity. }
+  exact (step_sim (IClose bb c) (IClose bb c) n n _ s _ eq_refl Hs E).
 Qed.
 
 Lemma parens_group_machine A Ee E1 E1' B B' j c k1 k2 c1 c2 fse te st T1 :
   map untok_item Ee = map untok_item E1 -> map untok_item Ee = map untok_item E1' ->
   map untok_item B = map untok_item B' ->
   spine_run Ee 0 ([], None) = Some (fse, Some te) -> existsb is_fgroup fse = false ->
-  spine_run (A ++ IOpen j :: E1 ++ IClose c :: B) 0 ([], None) = Some st ->
-  spine_insert (A ++ IOpen j :: E1 ++ IClose c :: B) = Some T1 ->
-  exists T1', spine_insert (A ++ IOpen k1 :: IOpen k2 :: E1' ++ IClose c1 :: IClose c2 :: B') = Some T1' /\
+  spine_run (A ++ IOpen BRound j :: E1 ++ IClose BRound c :: B) 0 ([], None) = Some st ->
+  spine_insert (A ++ IOpen BRound j :: E1 ++ IClose BRound c :: B) = Some T1 ->
+  exists T1', spine_insert (A ++ IOpen BRound k1 :: IOpen BRound k2 :: E1' ++ IClose BRound c1 :: IClose BRound c2 :: B') = Some T1' /\
               sg T1' = sg T1.
 Proof.
   intros Hu1 Hu1' HuB Hre Hng Hr Hi. pose proof Hr as Hr0. rewrite spine_run_app in Hr.
@@ -566,23 +575,23 @@ Proof.
   cbn [spine_run] in Hr. destruct accA as [tA|]; [discriminate Hr|]. cbn [spine_step next_index] in Hr.
   rewrite spine_run_app in Hr.
   (* the group in the original run *)
-  pose proof (run_app_base nA j fsA Ee 0 [] None fse (Some te) Hre) as Tb. cbn [app] in Tb.
+  pose proof (run_app_base BRound nA j fsA Ee 0 [] None fse (Some te) Hre) as Tb. cbn [app] in Tb.
   destruct (run_sim Ee E1 0 (S nA) _ _ _ Hu1 (ssim_refl_none _) Tb) as (s1 & R1 & S1).
   cbn [fst snd] in *. rewrite R1 in Hr. cbn [spine_run] in Hr.
-  destruct (close_step_sim fse nA j fsA te s1 c (fold_left (fun m it => next_index it m) E1 (S nA)) Hng S1)
+  destruct (close_step_sim fse BRound nA j fsA te s1 c (fold_left (fun m it => next_index it m) E1 (S nA)) Hng S1)
     as (s2 & C2 & S2).
   rewrite C2 in Hr.
   (* the same group, twice bracketed *)
-  assert (Hst : exists st', spine_run (A ++ IOpen k1 :: IOpen k2 :: E1' ++ IClose c1 :: IClose c2 :: B') 0 ([], None) = Some st'
+  assert (Hst : exists st', spine_run (A ++ IOpen BRound k1 :: IOpen BRound k2 :: E1' ++ IClose BRound c1 :: IClose BRound c2 :: B') 0 ([], None) = Some st'
                             /\ ssim st st').
   { rewrite spine_run_app, EA. fold nA. cbn [spine_run spine_step next_index]. rewrite spine_run_app.
-    pose proof (run_app_base (S nA) k2 (FGroup nA k1 :: fsA) Ee 0 [] None fse (Some te) Hre) as Tb'. cbn [app] in Tb'.
+    pose proof (run_app_base BRound (S nA) k2 (FGroup BRound nA k1 :: fsA) Ee 0 [] None fse (Some te) Hre) as Tb'. cbn [app] in Tb'.
     destruct (run_sim Ee E1' 0 (S (S nA)) _ _ _ Hu1' (ssim_refl_none _) Tb') as (s1w & R1w & S1w).
     cbn [fst snd] in *. rewrite R1w. cbn [spine_run].
-    destruct (close_step_sim fse (S nA) k2 (FGroup nA k1 :: fsA) te s1w c1
+    destruct (close_step_sim fse BRound (S nA) k2 (FGroup BRound nA k1 :: fsA) te s1w c1
                 (fold_left (fun m it => next_index it m) E1' (S (S nA))) Hng S1w) as (s2w & C2w & S2w).
     rewrite C2w. cbn [next_index].
-    destruct (close_step_sim [] nA k1 fsA (NGroup (S nA) k2 (close fse te)) s2w c2
+    destruct (close_step_sim [] BRound nA k1 fsA (NGroup BRound (S nA) k2 (close fse te)) s2w c2
                 (fold_left (fun m it => next_index it m) E1' (S (S nA))) eq_refl S2w) as (s3w & C3w & S3w).
     rewrite C3w. cbn [next_index close] in *.
     eapply run_sim; [exact HuB| |exact Hr].
@@ -593,13 +602,13 @@ Qed.
 
 Lemma lead_close p s :
   match p with
-  | Some p0 => if s && ends_value_k p0 && starts_value_k KClose then [IBinary D_List None] else []
+  | Some p0 => if s && ends_value_k p0 && starts_value_k (KClose BRound) then [IBinary D_List None] else []
   | None => [] end = [].
 Proof. destruct p as [a|]; [|reflexivity]. cbn [starts_value_k]. rewrite andb_false_r. reflexivity. Qed.
 
 Lemma lead_open p s :
   match p with
-  | Some p0 => if s && ends_value_k p0 && starts_value_k KOpen then [IBinary D_List None] else []
+  | Some p0 => if s && ends_value_k p0 && starts_value_k (KOpen BRound) then [IBinary D_List None] else []
   | None => [] end = lead_of p s.
 Proof. destruct p as [a|]; [|reflexivity]. cbn [lead_of starts_value_k]. rewrite andb_true_r. reflexivity. Qed.
 
@@ -607,9 +616,9 @@ Lemma items_wrap_group pre e post its :
   items_of (pre ++ TT_StartGroup :: e ++ TT_EndGroup :: post) 0 None false = Some its ->
   exists A' Ee E1 E1' B B' j c k2 c1 c2,
     items_of e 0 None false = Some Ee /\
-    its = A' ++ IOpen j :: E1 ++ IClose c :: B /\
+    its = A' ++ IOpen BRound j :: E1 ++ IClose BRound c :: B /\
     items_of (pre ++ TT_StartGroup :: TT_StartGroup :: e ++ TT_EndGroup :: TT_EndGroup :: post) 0 None false
-    = Some (A' ++ IOpen j :: IOpen k2 :: E1' ++ IClose c1 :: IClose c2 :: B') /\
+    = Some (A' ++ IOpen BRound j :: IOpen BRound k2 :: E1' ++ IClose BRound c1 :: IClose BRound c2 :: B') /\
     map untok_item Ee = map untok_item E1 /\ map untok_item Ee = map untok_item E1' /\
     map untok_item B = map untok_item B'.
 Proof.
@@ -621,17 +630,17 @@ Proof.
   cbn [andb app ends_value_k] in *.
   rewrite items_of_app in H. rewrite (items_of_app e (TT_EndGroup :: TT_EndGroup :: post)).
   (* the items of [e] in its three settings *)
-  pose proof (items_of_index e (S jp) 0 (Some KOpen) false) as X1. rewrite (items_of_after_open e 0 false) in X1.
-  pose proof (items_of_index e (S (S jp)) 0 (Some KOpen) false) as X2. rewrite (items_of_after_open e 0 false) in X2.
-  destruct (items_of e (S jp) (Some KOpen) false) as [E1|]; [|destruct p; discriminate H].
+  pose proof (items_of_index e (S jp) 0 (Some (KOpen BRound)) false) as X1. rewrite (items_of_after_open BRound e 0 false) in X1.
+  pose proof (items_of_index e (S (S jp)) 0 (Some (KOpen BRound)) false) as X2. rewrite (items_of_after_open BRound e 0 false) in X2.
+  destruct (items_of e (S jp) (Some (KOpen BRound)) false) as [E1|]; [|destruct p; discriminate H].
   destruct (items_of e 0 None false) as [Ee|]; [|discriminate X1].
-  destruct (items_of e (S (S jp)) (Some KOpen) false) as [E1'|]; [|discriminate X2].
+  destruct (items_of e (S (S jp)) (Some (KOpen BRound)) false) as [E1'|]; [|discriminate X2].
   cbn [oitems option_map] in X1, X2. injection X1 as X1. injection X2 as X2.
-  destruct (end_state (Some KOpen) false e) as [pe se]. cbn [fst snd] in *.
+  destruct (end_state (Some (KOpen BRound)) false e) as [pe se]. cbn [fst snd] in *.
   cbn [items_of ref_kind] in H |- *. rewrite !lead_close in *. cbn [andb app] in *.
-  pose proof (items_of_index post (S (S jp + length e)) (S (S (S (S jp) + length e))) (Some KClose) false) as XB.
-  destruct (items_of post (S (S jp + length e)) (Some KClose) false) as [B|]; [|destruct p; discriminate H].
-  destruct (items_of post (S (S (S (S jp) + length e))) (Some KClose) false) as [B'|]; [|discriminate XB].
+  pose proof (items_of_index post (S (S jp + length e)) (S (S (S (S jp) + length e))) (Some (KClose BRound)) false) as XB.
+  destruct (items_of post (S (S jp + length e)) (Some (KClose BRound)) false) as [B|]; [|destruct p; discriminate H].
+  destruct (items_of post (S (S (S (S jp) + length e))) (Some (KClose BRound)) false) as [B'|]; [|discriminate XB].
   cbn [oitems option_map] in XB. injection XB as XB.
   cbn [option_map] in H |- *. injection H as <-.
   exists (A ++ lead_of p s), Ee, E1, E1', B, B', jp, (S jp + length e), (S jp), (S (S jp) + length e), (S (S (S jp) + length e)).
